@@ -22,6 +22,6 @@ PROP = {
 
 TEXT = {
     "technique": "stateful (model-based) property-based testing: operation histories against std::vector / std::map / std::set in lock step, a lifetime-tracking element type (live-set ledger) for exactly-once construction/destruction and use of dead objects, ASan/UBSan for bounds, libFuzzer in thorough",
-    "level": "Generated-history exploration: histories of up to 50 operations over three vectors (push/emplace_back, insert and emplace at every position, range insert from another container, erase(pos), erase(range), pop_back, resize, reserve, clear, insert_sorted, copy/move construction and assignment incl. self-assignment, initializer-list / iterator-range / count construction, == != <, at() in and out of range) are applied to igris::vector and to its std_portable.h twin, with int, with an element type that itself holds a vector of the implementation under test (so that element moves and assignments run the vector's own, self-assignment included), and with an element type that owns heap memory and reports construction over a live object, assignment to / move from / read of / destruction of a dead one, leaks and imbalance; after every operation size, capacity >= size, the element sequence (index, iteration, data, front/back), comparison results and thrown exceptions must equal std::vector's. flat_map / flat_set (over the host vector and over igris::vector, as in a bare-metal build; int and std::string keys/values) are driven with insert, emplace, operator[], clear, copy/assign and initializer lists with duplicate keys and must agree with std::map / std::set on size, count, find and at (incl. out_of_range) for every key of the universe.  Separate targets let resize / reserve / count construction jump to 250..262, 41..600, 1000..1100 (and, for int elements, 65530..65545) elements. Nothing is established beyond the explored histories.",
+    "level": "Generated-history exploration: histories of up to 50 operations over three vectors (push/emplace_back, insert and emplace at every position, range insert from another container, erase(pos), erase(range), pop_back, resize, reserve, clear, insert_sorted, copy/move construction and assignment incl. self-assignment, initializer-list / iterator-range / count construction, == != <, at() in and out of range) are applied to igris::vector and to its std_portable.h twin, with int, with an element type that itself holds a vector of the implementation under test (so that element moves and assignments run the vector's own, self-assignment included), and with an element type that owns heap memory and reports construction over a live object, assignment to / move from / read of / destruction of a dead one, leaks and imbalance; after every operation size, capacity >= size, the element sequence (index, iteration, data, front/back), comparison results and thrown exceptions must equal std::vector's. flat_map / flat_set (over the host vector and over igris::vector, as in a bare-metal build; int and std::string keys/values) are driven with insert, emplace, operator[], clear, copy/assign and initializer lists with duplicate keys and must agree with std::map / std::set on size, count, find and at (incl. out_of_range) for every key of the universe.  Separate targets let resize / reserve / count construction jump to 250..262, 41..600, 1000..1100 (and, for int elements, 65530..65545) elements. Nothing is established beyond the explored histories. flat_set / flat_map are also instantiated with std::greater and flat_set with a case-insensitive order; insert_sorted's returned position is compared with upper_bound.",
     "note": "Trusted: host std::vector/std::map/std::set as references; a moved-from (or self-moved) vector may hold anything valid, the reference adopts it; iteration order of flat_map is not compared; operations that do not instantiate in the std_portable twin (host-iterator range constructor) are skipped; const operator[] of flat_map (returns a reference to a temporary) is not exercised because std::map has no counterpart.",
 }
